@@ -1,8 +1,9 @@
 import RavenModel.Base.GoStr
 import RavenModel.Base.Dec
 import RavenModel.Model.SeqSet
-/-! SEARCH: the tokeniser `parseSearchTokens`, the token loop `evaluateTokens` with its arity rules (as a total function:
-`none` would be a Go index panic), the validation pass that refuses unsupported keys, and a reference evaluator. -/
+/-! SEARCH: the search-key language as the evaluator reads it — tokens (a parenthesised group is one token holding its own
+tokens), `searchKeyLen` / `evaluateTokens` as one parse-and-evaluate function over token lists (an incomplete key is an
+error, not an index beyond the end), and the reference evaluator over key trees. -/
 namespace Raven.Search
 open Raven Raven.GoStr
 
@@ -14,8 +15,8 @@ inductive Tok where
   | hdr                    -- HEADER                           (two arguments)
   | notT
   | orT
-  | other (x : Bytes)      -- anything else: an argument, an unknown key, a parenthesised group
-deriving DecidableEq, Repr
+  | other (x : Bytes)      -- anything else: an argument, an unknown word, an unclosed parenthesis
+  | group (raw : Bytes) (inner : List Tok)   -- "( … )": its text (when it stands where an argument is expected) and its keys
 
 /-- message-dependent primitives -/
 structure Prim where
@@ -24,193 +25,349 @@ structure Prim where
   a1 : Bytes → Tok → Bool
   h2 : Tok → Tok → Bool
 
-def requiresArg : Tok → Bool
-  | .kw1 _ => true
-  | .hdr => true
-  | _ => false
+/-- how a word that is no key is treated: the specification refuses it; SEARCH skips it unless it begins with a parenthesis
+(an unclosed group); UID SEARCH skips everything it does not know -/
+inductive Mode where
+  | spec | search | uid
+deriving DecidableEq, Repr
 
-variable (P : Prim)
+def startsParen (x : Bytes) : Bool := match x with | c :: _ => c = b_lp | [] => false
 
-/-- evaluateTokens on a one-token list -/
-def eval1 : Tok → Bool
-  | .seq s => P.seqOK s
-  | .kw0 a => P.a0 a
-  | .kw1 _ => false        -- argument missing
-  | .hdr => false
-  | .notT => false
-  | .orT => false
-  | .other _ => true       -- unknown key: skipped by the loop (the validation pass refuses such programs beforehand)
+def otherOK : Mode → Bytes → Bool
+  | .spec, _ => false
+  | .search, x => !startsParen x
+  | .uid, _ => true
 
-/-- evaluateTokens on [k, x] where requiresArg k -/
-def evalArg : Tok → Tok → Bool
-  | .kw1 a, x => P.a1 a x
-  | _, _ => false          -- HEADER needs two arguments
+variable (P : Prim) (m : Mode)
 
-/-- the token loop -/
-def eval : List Tok → Option Bool
-  | [] => some true
-  | .seq s :: rest => (eval rest).map (P.seqOK s && ·)
-  | .kw0 a :: rest => (eval rest).map (P.a0 a && ·)
-  | .kw1 a :: rest =>
-    match rest with
-    | [] => some false
-    | x :: r => (eval r).map (P.a1 a x && ·)
-  | .hdr :: rest =>
-    match rest with
-    | f :: v :: r => (eval r).map (P.h2 f v && ·)
-    | _ => some false
-  | .notT :: rest =>
-    match rest with
-    | [] => some false
-    | k :: r =>
-      if requiresArg k then
-        match r with
-        | x :: r2 => (eval r2).map (!(evalArg P k x) && ·)
-        | [] => some (!(eval1 P k))
-      else (eval r).map (!(eval1 P k) && ·)
-  | .orT :: rest =>
-    match rest with
-    | [] => some false
-    | [_] => some false                       -- i+2 >= len
-    | k :: y :: r =>
-      if requiresArg k then
-        -- key1 = [k, y]; key2 starts at r
-        match r with
-        | [] => some false                     -- the first key used up the last token: the second key is missing
-        | k2 :: r2 =>
-          if requiresArg k2 then
-            match r2 with
-            | z :: r3 => (eval r3).map ((evalArg P k y || evalArg P k2 z) && ·)
-            | [] => some (evalArg P k y || eval1 P k2)
-          else (eval r2).map ((evalArg P k y || eval1 P k2) && ·)
-      else
-        -- key1 = [k]; key2 starts at y
-        if requiresArg y then
-          match r with
-          | z :: r3 => (eval r3).map ((eval1 P k || evalArg P y z) && ·)
-          | [] => some (eval1 P k || eval1 P y)
-        else (eval r).map ((eval1 P k || eval1 P y) && ·)
-  | .other _ :: rest => eval rest
+/-! ## parse and evaluate
+`evalKey` reads one search key from the front of the token list and returns its value on the message and the rest;
+`evalKeys` is the conjunction of all keys of a list. `none`: a key is incomplete (argument or sub-key missing) or, depending
+on the mode, a word is no key. The fuel bounds the nesting; `2 * tokens + 2` always suffices. -/
+mutual
+def evalKey : Nat → List Tok → Option (Bool × List Tok)
+  | 0, _ => none
+  | _ + 1, [] => none
+  | _ + 1, .seq s :: r => some (P.seqOK s, r)
+  | _ + 1, .kw0 a :: r => some (P.a0 a, r)
+  | _ + 1, .kw1 a :: x :: r => some (P.a1 a x, r)
+  | _ + 1, [.kw1 _] => none
+  | _ + 1, .hdr :: f :: v :: r => some (P.h2 f v, r)
+  | _ + 1, [.hdr] => none
+  | _ + 1, [.hdr, _] => none
+  | f + 1, .notT :: r =>
+    match evalKey f r with
+    | some (b, r') => some (!b, r')
+    | none => none
+  | f + 1, .orT :: r =>
+    match evalKey f r with
+    | some (a, r1) =>
+      match evalKey f r1 with
+      | some (b, r2) => some (a || b, r2)
+      | none => none
+    | none => none
+  | f + 1, .group _ inner :: r =>
+    match evalKeys f inner with
+    | some b => some (b, r)
+    | none => none
+  | _ + 1, .other x :: r => if otherOK m x then some (true, r) else none
+def evalKeys : Nat → List Tok → Option Bool
+  | 0, _ => none
+  | _ + 1, [] => some true
+  | f + 1, t :: r =>
+    match evalKey f (t :: r) with
+    | some (b, rest) =>
+      match evalKeys f rest with
+      | some c => some (b && c)
+      | none => none
+    | none => none
+end
 
-/-! ## specification: the supported fragment -/
-inductive Simple where
-  | seq (s : Bytes) | k0 (a : Bytes) | k1 (a : Bytes) (x : Tok)
-inductive Item where
-  | s (k : Simple) | hdr (f v : Tok) | not (k : Simple) | or (a b : Simple)
+/-! ## the specification: key trees and their value -/
+mutual
+inductive Key where
+  | seq (s : Bytes)
+  | k0 (a : Bytes)
+  | k1 (a : Bytes) (x : Tok)
+  | hdr (f v : Tok)
+  | not (k : Key)
+  | or (a b : Key)
+  | group (raw : Bytes) (ks : Keys)
+inductive Keys where
+  | nil
+  | cons (k : Key) (ks : Keys)
+end
 
-def Simple.eval : Simple → Bool
+mutual
+def Key.eval : Key → Bool
   | .seq s => P.seqOK s
   | .k0 a => P.a0 a
   | .k1 a x => P.a1 a x
-def Item.eval : Item → Bool
-  | .s k => k.eval P
   | .hdr f v => P.h2 f v
-  | .not k => !(k.eval P)
-  | .or a b => a.eval P || b.eval P
+  | .not k => !(k.eval)
+  | .or a b => a.eval || b.eval
+  | .group _ ks => ks.eval
+def Keys.eval : Keys → Bool
+  | .nil => true
+  | .cons k ks => k.eval && ks.eval
+end
 
-def Simple.print : Simple → List Tok
+mutual
+def Key.print : Key → List Tok
   | .seq s => [.seq s]
   | .k0 a => [.kw0 a]
   | .k1 a x => [.kw1 a, x]
-def Item.print : Item → List Tok
-  | .s k => k.print
   | .hdr f v => [.hdr, f, v]
   | .not k => .notT :: k.print
   | .or a b => .orT :: (a.print ++ b.print)
+  | .group raw ks => [.group raw ks.print]
+def Keys.print : Keys → List Tok
+  | .nil => []
+  | .cons k ks => k.print ++ ks.print
+end
 
-/-- on the supported fragment the token loop computes the conjunction of the items -/
-theorem eval_correct (items : List Item) : eval P (items.flatMap Item.print) = some (items.all (Item.eval P)) := by
-  induction items with
-  | nil => rfl
-  | cons it rest ih =>
-    simp only [List.flatMap_cons, List.all_cons]
-    cases it with
-    | s k =>
+/-! fuel that suffices for a key / a list of keys -/
+mutual
+def Key.cost : Key → Nat
+  | .seq _ => 1
+  | .k0 _ => 1
+  | .k1 _ _ => 1
+  | .hdr _ _ => 1
+  | .not k => 1 + k.cost
+  | .or a b => 1 + a.cost + b.cost
+  | .group _ ks => 1 + ks.cost
+def Keys.cost : Keys → Nat
+  | .nil => 1
+  | .cons k ks => 1 + k.cost + ks.cost
+end
+
+theorem Key.print_ne_nil : ∀ k : Key, ∃ t r, k.print = t :: r
+  | .seq _ => ⟨_, _, rfl⟩
+  | .k0 _ => ⟨_, _, rfl⟩
+  | .k1 _ _ => ⟨_, _, rfl⟩
+  | .hdr _ _ => ⟨_, _, rfl⟩
+  | .not _ => ⟨_, _, rfl⟩
+  | .or _ _ => ⟨_, _, rfl⟩
+  | .group _ _ => ⟨_, _, rfl⟩
+
+theorem Key.cost_pos : ∀ k : Key, 1 ≤ k.cost
+  | .seq _ => by simp [Key.cost]
+  | .k0 _ => by simp [Key.cost]
+  | .k1 _ _ => by simp [Key.cost]
+  | .hdr _ _ => by simp [Key.cost]
+  | .not _ => by simp [Key.cost]
+  | .or _ _ => by simp only [Key.cost]; omega
+  | .group _ _ => by simp [Key.cost]
+
+/-- the evaluator on the printed form of a key tree, followed by anything, reads exactly that key, gives it the value the
+reference evaluator gives, and leaves the rest — in every mode, for every nesting of NOT, OR and groups -/
+theorem evalKey_print_aux : ∀ (n : Nat),
+    (∀ (k : Key) (rest : List Tok) (fuel : Nat), k.cost ≤ n → k.cost ≤ fuel →
+      evalKey P m fuel (k.print ++ rest) = some (k.eval P, rest)) ∧
+    (∀ (ks : Keys) (fuel : Nat), ks.cost ≤ n → ks.cost ≤ fuel → evalKeys P m fuel ks.print = some (ks.eval P)) := by
+  intro n
+  induction n with
+  | zero =>
+    constructor
+    · intro k rest fuel h; have := Key.cost_pos k; omega
+    · intro ks fuel h; cases ks <;> simp only [Keys.cost] at h <;> omega
+  | succ n ih =>
+    obtain ⟨ihk, ihks⟩ := ih
+    constructor
+    · intro k rest fuel hn hf
       cases k with
-      | seq s => simp [Item.print, Simple.print, eval, ih, Item.eval, Simple.eval]
-      | k0 a => simp [Item.print, Simple.print, eval, ih, Item.eval, Simple.eval]
-      | k1 a x => simp [Item.print, Simple.print, eval, ih, Item.eval, Simple.eval]
-    | hdr f v => simp [Item.print, eval, ih, Item.eval]
-    | not k =>
-      cases k with
-      | seq s =>
-        show eval P (Tok.notT :: Tok.seq s :: rest.flatMap Item.print) = _
-        rw [eval.eq_def]; simp [ih, Item.eval, Simple.eval, requiresArg, eval1]
-      | k0 a =>
-        show eval P (Tok.notT :: Tok.kw0 a :: rest.flatMap Item.print) = _
-        rw [eval.eq_def]; simp [ih, Item.eval, Simple.eval, requiresArg, eval1]
-      | k1 a x =>
-        show eval P (Tok.notT :: Tok.kw1 a :: x :: rest.flatMap Item.print) = _
-        rw [eval.eq_def]; simp [ih, Item.eval, Simple.eval, requiresArg, evalArg]
-    | or a b =>
-      cases a <;> cases b <;>
-        (simp only [Item.print, Simple.print, List.cons_append, List.nil_append]
-         rw [eval.eq_def]
-         simp [ih, Item.eval, Simple.eval, requiresArg, eval1, evalArg])
+      | seq s => cases fuel with | zero => simp [Key.cost] at hf | succ f => simp [Key.print, evalKey, Key.eval]
+      | k0 a => cases fuel with | zero => simp [Key.cost] at hf | succ f => simp [Key.print, evalKey, Key.eval]
+      | k1 a x => cases fuel with | zero => simp [Key.cost] at hf | succ f => simp [Key.print, evalKey, Key.eval]
+      | hdr f v => cases fuel with | zero => simp [Key.cost] at hf | succ f => simp [Key.print, evalKey, Key.eval]
+      | not k =>
+        cases fuel with
+        | zero => simp [Key.cost] at hf
+        | succ f =>
+          simp only [Key.cost] at hn hf
+          have := ihk k rest f (by omega) (by omega)
+          simp [Key.print, evalKey, this, Key.eval]
+      | or a b =>
+        cases fuel with
+        | zero => simp [Key.cost] at hf
+        | succ f =>
+          simp only [Key.cost] at hn hf
+          have ha := ihk a (b.print ++ rest) f (by omega) (by omega)
+          have hb := ihk b rest f (by omega) (by omega)
+          simp [Key.print, evalKey, List.append_assoc, ha, hb, Key.eval]
+      | group raw ks =>
+        cases fuel with
+        | zero => simp [Key.cost] at hf
+        | succ f =>
+          simp only [Key.cost] at hn hf
+          have := ihks ks f (by omega) (by omega)
+          simp [Key.print, evalKey, this, Key.eval]
+    · intro ks fuel hn hf
+      cases ks with
+      | nil =>
+        cases fuel with
+        | zero => simp [Keys.cost] at hf
+        | succ f => simp [Keys.print, evalKeys, Keys.eval]
+      | cons k ks =>
+        cases fuel with
+        | zero => simp [Keys.cost] at hf
+        | succ f =>
+          simp only [Keys.cost] at hn hf
+          obtain ⟨t, r, hp⟩ := Key.print_ne_nil k
+          have hk := ihk k ks.print f (by omega) (by omega)
+          have hks := ihks ks f (by omega) (by omega)
+          simp only [Keys.print]
+          have : k.print ++ ks.print = t :: (r ++ ks.print) := by rw [hp]; rfl
+          rw [this, evalKeys]
+          rw [← this]
+          simp only [hk, hks]
+          simp [Keys.eval]
 
-/-- the loop is total: it answers for every token list (an index beyond the end — a Go panic — cannot happen) -/
-theorem eval_total : ∀ (ts : List Tok), (eval P ts).isSome = true := by
-  intro ts
-  induction ts using eval.induct <;>
-    first
-    | (simp_all [eval]; done)
-    | (rw [eval.eq_def]; simp_all)
+theorem evalKeys_print (ks : Keys) (fuel : Nat) (h : ks.cost ≤ fuel) :
+    evalKeys P m fuel ks.print = some (ks.eval P) :=
+  (evalKey_print_aux P m ks.cost).2 ks fuel (Nat.le_refl _) h
 
-/-! ## validation: the keys the evaluator implements (anything else is answered BAD) -/
-/-- a parenthesised group (`strings.HasPrefix(token, "(")`) -/
-def isGroup (x : Bytes) : Bool := match x with | c :: _ => c = b_lp | [] => false
+/-! ## modes: what the specification lets through, SEARCH lets through; what SEARCH lets through, UID SEARCH evaluates alike -/
+def Mode.le : Mode → Mode → Bool
+  | .spec, _ => true
+  | .search, .spec => false
+  | .search, _ => true
+  | .uid, .uid => true
+  | .uid, _ => false
 
-/-- a word that is no key: with `lenient` (what the code does) it is skipped unless it is a parenthesised group, without
-(what the property demands) it is refused -/
-def otherOK (lenient : Bool) (x : Bytes) : Bool := lenient && !isGroup x
+theorem otherOK_mono {a b : Mode} (h : Mode.le a b = true) (x : Bytes) (hx : otherOK a x = true) : otherOK b x = true := by
+  cases a <;> cases b <;> simp_all [otherOK, Mode.le]
 
-/-- the same walk as the loop, deciding only whether every key position holds a supported key with its arguments present.
-`validateSearchTokens` / `simpleSearchKeyLen` are `validG true`. -/
-def validG (lenient : Bool) : List Tok → Bool
-  | [] => true
-  | .seq _ :: rest => validG lenient rest
-  | .kw0 _ :: rest => validG lenient rest
-  | .kw1 _ :: _ :: r => validG lenient r
-  | .hdr :: _ :: _ :: r => validG lenient r
-  | .notT :: .seq _ :: r => validG lenient r
-  | .notT :: .kw0 _ :: r => validG lenient r
-  | .notT :: .kw1 _ :: _ :: r => validG lenient r
-  | .notT :: .other x :: r => otherOK lenient x && validG lenient r
-  | .orT :: .seq _ :: r => validKey2 r
-  | .orT :: .kw0 _ :: r => validKey2 r
-  | .orT :: .kw1 _ :: _ :: r => validKey2 r
-  | .orT :: .other x :: r => otherOK lenient x && validKey2 r
-  | .other x :: rest => otherOK lenient x && validG lenient rest
-  | _ => false
-where
-  validKey2 : List Tok → Bool
-    | .seq _ :: r => validG lenient r
-    | .kw0 _ :: r => validG lenient r
-    | .kw1 _ :: _ :: r => validG lenient r
-    | .other x :: r => otherOK lenient x && validG lenient r
-    | _ => false
+theorem eval_mode_mono {a b : Mode} (h : Mode.le a b = true) : ∀ (fuel : Nat),
+    (∀ ts r, evalKey P a fuel ts = some r → evalKey P b fuel ts = some r) ∧
+    (∀ ts v, evalKeys P a fuel ts = some v → evalKeys P b fuel ts = some v) := by
+  intro fuel
+  induction fuel with
+  | zero => exact ⟨fun ts r hh => by simp [evalKey] at hh, fun ts v hh => by simp [evalKeys] at hh⟩
+  | succ f ih =>
+    obtain ⟨ihk, ihks⟩ := ih
+    constructor
+    · intro ts r hh
+      match ts with
+      | [] => simp [evalKey] at hh
+      | .seq s :: r' => simpa [evalKey] using hh
+      | .kw0 s :: r' => simpa [evalKey] using hh
+      | .kw1 s :: x :: r' => simpa [evalKey] using hh
+      | [.kw1 _] => simp [evalKey] at hh
+      | .hdr :: x :: y :: r' => simpa [evalKey] using hh
+      | [.hdr] => simp [evalKey] at hh
+      | [.hdr, _] => simp [evalKey] at hh
+      | .notT :: r' =>
+        simp only [evalKey] at hh ⊢
+        cases h1 : evalKey P a f r' with
+        | none => simp [h1] at hh
+        | some p => rw [ihk r' p h1]; simpa [h1] using hh
+      | .orT :: r' =>
+        simp only [evalKey] at hh ⊢
+        cases h1 : evalKey P a f r' with
+        | none => simp [h1] at hh
+        | some p =>
+          obtain ⟨x, r1⟩ := p
+          rw [ihk r' _ h1]
+          simp only [h1] at hh
+          cases h2 : evalKey P a f r1 with
+          | none => simp [h2] at hh
+          | some q => simp only [ihk r1 q h2]; simpa [h2] using hh
+      | .group raw inner :: r' =>
+        simp only [evalKey] at hh ⊢
+        cases h1 : evalKeys P a f inner with
+        | none => simp [h1] at hh
+        | some v => rw [ihks inner v h1]; simpa [h1] using hh
+      | .other x :: r' =>
+        simp only [evalKey] at hh ⊢
+        by_cases hx : otherOK a x = true
+        · simp only [hx, if_true] at hh
+          simp only [otherOK_mono h x hx, if_true]; exact hh
+        · simp [hx] at hh
+    · intro ts v hh
+      match ts with
+      | [] => simpa [evalKeys] using hh
+      | t :: r' =>
+        simp only [evalKeys] at hh ⊢
+        cases h1 : evalKey P a f (t :: r') with
+        | none => simp [h1] at hh
+        | some p =>
+          obtain ⟨x, rest⟩ := p
+          rw [ihk _ _ h1]
+          simp only [h1] at hh
+          cases h2 : evalKeys P a f rest with
+          | none => simp [h2] at hh
+          | some c => simp only [ihks rest c h2]; simpa [h2] using hh
 
-/-- what the code accepts -/
-abbrev valid : List Tok → Bool := validG true
-/-- what the property lets through: the supported fragment and nothing else -/
-abbrev strictValid : List Tok → Bool := validG false
-
-theorem valid_print (l : Bool) (items : List Item) : validG l (items.flatMap Item.print) = true := by
-  induction items with
-  | nil => rfl
-  | cons it rest ih =>
-    simp only [List.flatMap_cons]
-    cases it with
-    | s k => cases k <;> simp [Item.print, Simple.print, validG, ih]
-    | hdr f v => simp [Item.print, validG, ih]
-    | not k => cases k <;> simp [Item.print, Simple.print, validG, ih]
-    | or a b => cases a <;> cases b <;> simp [Item.print, Simple.print, validG, validG.validKey2, ih]
-
-/-- the strict pass accepts nothing the code refuses -/
-theorem strict_le (ts : List Tok) : validG false ts = true → validG true ts = true := by
-  apply validG.induct
-    (motive_2 := fun ts => validG false ts = true → validG true ts = true)
-    (motive_1 := fun r => validG.validKey2 false r = true → validG.validKey2 true r = true) <;>
-    simp_all [validG, validG.validKey2, otherOK]
+/-- whether a program is well formed does not depend on the message it is evaluated on: the rest a key leaves, and whether
+a list of keys has a value at all, are the same for any two messages -/
+theorem wellformed_indep (Q : Prim) : ∀ (fuel : Nat),
+    (∀ ts, ((evalKey P m fuel ts).map (·.2)) = ((evalKey Q m fuel ts).map (·.2))) ∧
+    (∀ ts, (evalKeys P m fuel ts).isSome = (evalKeys Q m fuel ts).isSome) := by
+  intro fuel
+  induction fuel with
+  | zero => exact ⟨fun ts => by simp [evalKey], fun ts => by simp [evalKeys]⟩
+  | succ f ih =>
+    obtain ⟨ihk, ihks⟩ := ih
+    constructor
+    · intro ts
+      match ts with
+      | [] => simp [evalKey]
+      | .seq s :: r' => simp [evalKey]
+      | .kw0 s :: r' => simp [evalKey]
+      | .kw1 s :: x :: r' => simp [evalKey]
+      | [.kw1 _] => simp [evalKey]
+      | .hdr :: x :: y :: r' => simp [evalKey]
+      | [.hdr] => simp [evalKey]
+      | [.hdr, _] => simp [evalKey]
+      | .notT :: r' =>
+        simp only [evalKey]
+        have := ihk r'
+        cases h1 : evalKey P m f r' <;> cases h2 : evalKey Q m f r' <;> simp_all
+      | .orT :: r' =>
+        simp only [evalKey]
+        have h0 := ihk r'
+        cases h1 : evalKey P m f r' with
+        | none =>
+          cases h2 : evalKey Q m f r' with
+          | none => rfl
+          | some q => simp [h1, h2] at h0
+        | some p =>
+          cases h2 : evalKey Q m f r' with
+          | none => simp [h1, h2] at h0
+          | some q =>
+            obtain ⟨pa, pr⟩ := p
+            obtain ⟨qa, qr⟩ := q
+            have hr : pr = qr := by simpa [h1, h2] using h0
+            subst hr
+            have h3 := ihk pr
+            cases h4 : evalKey P m f pr <;> cases h5 : evalKey Q m f pr <;> simp_all
+      | .group raw inner :: r' =>
+        simp only [evalKey]
+        have := ihks inner
+        cases h1 : evalKeys P m f inner <;> cases h2 : evalKeys Q m f inner <;> simp_all
+      | .other x :: r' =>
+        simp only [evalKey]
+    · intro ts
+      match ts with
+      | [] => simp [evalKeys]
+      | t :: r' =>
+        simp only [evalKeys]
+        have h0 := ihk (t :: r')
+        cases h1 : evalKey P m f (t :: r') with
+        | none =>
+          cases h2 : evalKey Q m f (t :: r') with
+          | none => rfl
+          | some q => simp [h1, h2] at h0
+        | some p =>
+          cases h2 : evalKey Q m f (t :: r') with
+          | none => simp [h1, h2] at h0
+          | some q =>
+            obtain ⟨pa, pr⟩ := p
+            obtain ⟨qa, qr⟩ := q
+            have hr : pr = qr := by simpa [h1, h2] using h0
+            subst hr
+            have h3 := ihks pr
+            cases h4 : evalKeys P m f pr <;> cases h5 : evalKeys Q m f pr <;> simp_all
 
 end Raven.Search
